@@ -1,4 +1,7 @@
 import Sudachi.Proofs.Normalize
+import Sudachi.Proofs.NormalizeBuf
+import Sudachi.Proofs.NormalizeRegex
+import Sudachi.Proofs.NormalizeParse
 /-!
 # C07 — Text normalisation is the specified context-free function of the input
 
@@ -88,7 +91,7 @@ theorem longest_key (ps : List Pair) (s : List Nat) :
 Unicode facts satisfying `UniOk`, applying the edits of `replace_slow` yields exactly the
 specification — scanning left to right, longest key → value, any other character lower-cased and
 (unless exempt) NFKC-normalised, nothing else changed. -/
-theorem slow_eq_spec (U : Uni) (hU : UniOk U) (T : Table) (s : List Nat) :
+theorem slow_eq_spec (U : Uni) (hU : CharOk U) (T : Table) (s : List Nat) :
     applyEdits (replaceSlow U T false s) s = some (normSpec U T s) := by
   have := slowGo_spec U hU T s 0 0 (Nat.zero_le _)
   simpa [applyEdits, replaceSlow] using this
@@ -97,7 +100,7 @@ theorem slow_eq_spec (U : Uni) (hU : UniOk U) (T : Table) (s : List Nat) :
 `∀ U T s, UniOk U → applyEdits (replaceSlow U T true s) s = some (normSpec U T s)`.
 That is FALSE (`slow_earliest_counterexample`).  Proved: it holds for every table in which no key
 is a prefix of another key (`PrefixFree`), which includes the shipped `rewrite.def`. -/
-theorem slow_eq_spec_partial (U : Uni) (hU : UniOk U) (T : Table) (hpf : PrefixFree T.pairs)
+theorem slow_eq_spec_partial (U : Uni) (hU : CharOk U) (T : Table) (hpf : PrefixFree T.pairs)
     (s : List Nat) : applyEdits (replaceSlow U T true s) s = some (normSpec U T s) := by
   unfold replaceSlow
   rw [slowGo_earliest_irrelevant U T hpf]
@@ -132,7 +135,7 @@ theorem lower_skipped_counterexample (e : Bool) :
 
 /-- Optimised code path: on a text for which `rewrite_impl` chooses it (whole-text quick check
 passes, no upper-case character) the edits of `replace_fast` yield the specification. -/
-theorem fast_eq_spec (U : Uni) (hU : UniOk U) (T : Table) (s : List Nat) (hfast : useSlow U s = false) :
+theorem fast_eq_spec (U : Uni) (hU : CharOk U) (T : Table) (s : List Nat) (hfast : useSlow U s = false) :
     applyEdits (replaceFast T s) s = some (normSpec U T s) :=
   fastGo_spec U T 0 s (plain_of_fast U hU T.ignore s hfast)
 
@@ -144,23 +147,101 @@ theorem quick_all_implies_each (U : Uni) (s : List Nat) (h : isNfkcQuick U s = Q
 
 /-- The plugin as a whole (repaired instance): the text used for lookup is `normSpec` of the input
 — a pure function of the input and the table. -/
-theorem rewrite_eq_spec (U : Uni) (hU : UniOk U) (T : Table) (s : List Nat) :
+theorem rewrite_eq_spec (U : Uni) (hU : CharOk U) (T : Table) (s : List Nat) :
     applyEdits (defaultEdits U T false s) s = some (normSpec U T s) :=
   defaultEdits_spec U hU T s
 
 /-- The same for the code as it stands, for tables without prefix-related keys.  Full statement
 (all tables) is false by `slow_earliest_counterexample`. -/
-theorem rewrite_eq_spec_partial (U : Uni) (hU : UniOk U) (T : Table) (hpf : PrefixFree T.pairs)
+theorem rewrite_eq_spec_partial (U : Uni) (hU : CharOk U) (T : Table) (hpf : PrefixFree T.pairs)
     (s : List Nat) : applyEdits (defaultEdits U T true s) s = some (normSpec U T s) := by
   have h := defaultEdits_spec U hU T s
   unfold defaultEdits replaceSlow at *
   rw [slowGo_earliest_irrelevant U T hpf]
   exact h
 
+/-! ### what is assumed of the Unicode tables (`unicode-normalization`, std case mapping) -/
+
+/-- The eight facts of `UniOk` (not `is_uppercase`-like ⇒ own lower case; quick-check Yes ⇒ own NFKC; lower
+case of a clean upper-case character is NFKC; lower case and NFKC never empty; "first output = input ⇒
+whole output = input" for the three iterators) imply the per-character assumption `CharOk` under which
+all theorems of this file are stated. -/
+theorem uni_ok_suffices (U : Uni) (hU : UniOk U) : CharOk U := hU.charOk
+
+/-- `CharOk` is EXACTLY what the code needs of the tables: the default plugin meets the specification
+for every table and every text if and only if, for every character and either exemption status, the
+character's own treatment (`need_lowercase`/`need_nfkc` match, `to_lowercase`, `nfkc`, "first output equals
+input ⇒ no edit") gives lower-casing followed — unless exempt — by NFKC.  The harness evaluates `CharOk`
+and every clause of `UniOk` on the real tables for every character it ships (`unihyp:*`; a violated
+clause is a failure of the run); the thorough tier does so for all 1 112 064 scalar values. -/
+theorem uni_assumption_exact (U : Uni) :
+    CharOk U ↔ ∀ (T : Table) (s : List Nat), applyEdits (defaultEdits U T false s) s = some (normSpec U T s) := by
+  constructor
+  · intro hC T s; exact defaultEdits_spec U hC T s
+  · intro h ignore c
+    have h1 := h ⟨ignore, []⟩ [c]
+    rw [normSpec_none U ⟨ignore, []⟩ c [] (by rfl), normSpec_nil, List.append_nil] at h1
+    rw [← Option.some.inj (h1.symm.trans (defaultEdits_single U ignore c))]
+
+/-! ### clause "a pure function of the input": long-lived (recycled) analysers -/
+
+/-- **History freedom of the input part of an analysis.**  `RBuf` transcribes `InputBuffer` (`reset`,
+`start_build`, `refresh_chars`, `commit` with its length guard and the scratch-pair swap, `build`).  For EVERY
+state `b` of a buffer — whatever it analysed before, also after analyses that were rejected at `start_build`
+or in the middle of `rewrite_input` —, every list of plugins (each reading `original()`, `current()`, the offset
+map and `current_chars()`) and every text: `reset` + `push_str(t)` + `start_build` + the plugins + `build` give
+the same text and offset map after every plugin, the same outcome and the same final buffer (the scratch
+pair `modified_2`/`m2o_2` aside, which nothing reads before clearing it) as a new buffer.  Why: `reset` clears
+`original`, `modified`, `m2o` and `mod_chars`, and these are all the fields a later step reads before writing. -/
+theorem rewrite_recycled_eq_new (ps : List Plug) (b : RBuf) (t : List Nat) :
+    (b.analyse .cur ps t).1.view = (RBuf.new.analyse .cur ps t).1.view ∧
+    (b.analyse .cur ps t).2 = (RBuf.new.analyse .cur ps t).2 :=
+  RBuf.analyse_eq_new ps b t
+
+/-- ... lifted to the way analysers are used: ONE tokenizer and ONE result list, `collect_results` swapping
+their buffers after every successful analysis (so a text meets the buffer of the call before last), any
+earlier state, any history of accepted and rejected texts: the stages and the outcome of the next text are
+those of a new buffer. -/
+theorem analyser_history_free (ps : List Plug) (a : Analyser) (hist : List (List Nat)) (t : List Nat) :
+    ((Analyser.run .cur ps a hist).tok.analyse .cur ps t).2 = (RBuf.new.analyse .cur ps t).2 :=
+  (RBuf.analyse_eq_new ps _ t).2
+
+/-- `refresh_chars` recomputes `mod_chars` only when it is empty.  That is sound: after `start_build` on a
+reset buffer the cache is empty-or-current (`Coherent`) and every plugin's `rewrite` keeps it so; hence the
+default plugin, which chooses its path from `current_chars()` but edits `current()`, chooses from the
+current text: its edits on the buffer are `defaultEdits` of the current text. -/
+theorem chars_cache_coherent (p : Plug) (b : RBuf) (hb : b.Coherent) (U : Uni) (T : Table) (e : Bool) :
+    (b.rewrite p).1.Coherent ∧
+    b.rewrite (defaultPlug U T e) = b.refreshChars.commit (defaultEdits U T e b.modified) :=
+  ⟨RBuf.rewrite_coherent p hb, RBuf.rewrite_default hb U T e⟩
+
+/-- **End to end on a recycled buffer**: for every previous state of the buffer, every table, all tables
+of Unicode facts satisfying `CharOk`, every text within the input limit whose rewrite is within the
+rewrite limit, the text the real pipeline (default plugin) leaves for lookup is `normSpec` of the input. -/
+theorem recycled_rewrite_eq_spec (U : Uni) (hC : CharOk U) (T : Table) (b : RBuf) (t : List Nat)
+    (h1 : bytes t ≤ 49149) (h2 : newLen t (defaultEdits U T false t) ≤ 65535) :
+    ∃ m, (b.analyse .cur [defaultPlug U T false] t).2 = ([(normSpec U T t, m)], none) ∧
+         (b.analyse .cur [defaultPlug U T false] t).1.modified = normSpec U T t :=
+  RBuf.default_on_recycled_eq_spec U hC T b t h1 h2
+
+/-- The seeded change C07b (the index tables, `mod_chars` among them, cleared at the start of `build()`
+instead of in `reset()`; `ResetV.lateClear`) is refuted in the kernel: after the already-normalised text `a`
+the same buffer leaves `Ｚ` as it is (the path is chosen from the stale characters of `a`), a new buffer
+gives `z`. -/
+theorem late_clear_counterexample :
+    ((RBuf.new.analyse .lateClear [defaultPlug Uz ⟨[], []⟩ false] [97]).1.analyse .lateClear
+        [defaultPlug Uz ⟨[], []⟩ false] [0xFF3A]).2.1.map (·.1) = [[0xFF3A]] ∧
+    (RBuf.new.analyse .lateClear [defaultPlug Uz ⟨[], []⟩ false] [0xFF3A]).2.1.map (·.1) = [[0x7A]] := by
+  constructor
+  · simp [RBuf.analyse, RBuf.reset, RBuf.fill, RBuf.startBuild, RBuf.new, RBuf.rewriteAll, RBuf.rewrite,
+      RBuf.refreshChars, RBuf.commit, RBuf.build, defaultPlug, defaultEditsOn, replaceFast, fastGo_nil_table,
+      useSlow, isNfkcQuick, quickGo, Uz, bytes, utf8w]
+  · decide
+
 /-! ### clause 3: context freedom; the two code paths agree -/
 
 /-- The optimised and the general code path agree wherever the optimised one is chosen. -/
-theorem paths_agree (U : Uni) (hU : UniOk U) (T : Table) (s : List Nat) (hfast : useSlow U s = false) :
+theorem paths_agree (U : Uni) (hU : CharOk U) (T : Table) (s : List Nat) (hfast : useSlow U s = false) :
     applyEdits (replaceFast T s) s = applyEdits (replaceSlow U T false s) s := by
   rw [fast_eq_spec U hU T s hfast, slow_eq_spec U hU T s]
 
@@ -169,7 +250,7 @@ theorem paths_agree_counterexample :
     applyEdits (replaceFast Tab [97, 98, 99]) [97, 98, 99] = some [121, 99] ∧
     applyEdits (replaceSlow Uz Tab true [97, 98, 99]) [97, 98, 99] = some [120, 98, 99] := by
   constructor
-  · rw [fast_eq_spec Uz uz_ok Tab _ (by decide), normSpec_some Uz Tab 97 _ ([97, 98], [121]) (by decide)]
+  · rw [fast_eq_spec Uz uz_ok.charOk Tab _ (by decide), normSpec_some Uz Tab 97 _ ([97, 98], [121]) (by decide)]
     simp only [List.length_cons, List.length_nil, List.drop_succ_cons, List.drop_zero]
     rw [normSpec_none Uz Tab 99 _ (by decide), normSpec_nil]
     decide
@@ -178,7 +259,7 @@ theorem paths_agree_counterexample :
 /-- How a span is rewritten never depends on unrelated characters elsewhere: if no key occurrence
 starting in `u` reaches into `v`, the rewrite of `u ++ v` is the rewrite of `u` followed by the
 rewrite of `v` — in particular whether `v` (or `u`) forces the slow path is irrelevant. -/
-theorem context_free (U : Uni) (hU : UniOk U) (T : Table) (u v : List Nat) (hns : NoSpan T u v) :
+theorem context_free (U : Uni) (hU : CharOk U) (T : Table) (u v : List Nat) (hns : NoSpan T u v) :
     ∃ a b, applyEdits (defaultEdits U T false u) u = some a ∧
            applyEdits (defaultEdits U T false v) v = some b ∧
            applyEdits (defaultEdits U T false (u ++ v)) (u ++ v) = some (a ++ b) :=
@@ -226,6 +307,60 @@ theorem yomigana_match_complete (Y : Yomi) (s : List Nat) :
 theorem yomigana_match_sound (Y : Yomi) (s : List Nat) (n : Nat) (h : yomiAt Y s = some n) :
     YomiMatch Y s n :=
   yomiAt_sound h
+
+/-! ### the two regular expressions, against a declarative specification of the pattern -/
+
+/-- `[marks]{2,}` with `find_iter`: the run the model computes at a position (`takeWhile`) is the longest
+prefix in the LANGUAGE of the pattern (`RE.lang (rePsm marks)`) when it has two or more marks, otherwise no
+prefix is in the language; and the plugin's edits are exactly the `find_iter` matches (leftmost, then
+continue behind the match), each replaced by the replacement symbol. -/
+theorem psm_regex_spec (marks rep : List Nat) (s : List Nat) :
+    ((2 ≤ (s.takeWhile marks.contains).length →
+        LongestPrefix (rePsm marks).lang s (s.takeWhile marks.contains).length) ∧
+     (¬ 2 ≤ (s.takeWhile marks.contains).length → ∀ n, ¬ LongestPrefix (rePsm marks).lang s n)) ∧
+    FindIter (LongestPrefix (rePsm marks).lang) 0 s ((psmEdits marks rep s).map (fun e => (e.s, e.e))) ∧
+    (∀ e ∈ psmEdits marks rep s, e.rep = rep) :=
+  ⟨psm_run_spec marks s, psmGo_find_iter marks rep 0 s⟩
+
+/-- `K(L R{1,n} B)` with `captures_iter`, group 1 deleted: `YomiMatch` (the span predicate of
+`yomigana_spec`) is membership of the prefix of `n + 3` characters in the language of the pattern; the
+matcher reports `n` iff that prefix is the LONGEST one in the language (nothing iff none is); the plugin's
+edits are the `captures_iter` matches, of each the part after the one-character kanji replaced by nothing. -/
+theorem yomigana_regex_spec (Y : Yomi) (s : List Nat) :
+    (∀ n, YomiMatch Y s n ↔ n + 3 ≤ s.length ∧ (reYomi Y).lang (s.take (n + 3))) ∧
+    (∀ n, yomiAt Y s = some n → LongestPrefix (reYomi Y).lang s (n + 3)) ∧
+    (yomiAt Y s = none → ∀ m, ¬ LongestPrefix (reYomi Y).lang s m) ∧
+    FindIter (LongestPrefix (reYomi Y).lang) 0 s ((yomiEdits Y s).map (fun e => (e.s - 1, e.e))) ∧
+    (∀ e ∈ yomiEdits Y s, e.rep = [] ∧ 1 ≤ e.s) :=
+  ⟨yomiMatch_iff_lang Y s, (yomiAt_regex_spec Y s).1, (yomiAt_regex_spec Y s).2, yomiGo_captures_iter Y 0 s⟩
+
+/-! ### `rewrite.def`: the reader, line by line -/
+
+/-- `read_rewrite_lists` as a function of the file: with `classify` = the kind of a line after `trim` and
+`split_whitespace` (blank or `#…` = skipped; one column of one scalar = exempt character; two columns =
+key/value; one column of several scalars, three or more columns = malformed): the read SUCCEEDS iff no line
+is malformed and no key is defined twice, and then the key/value list is exactly the two-column lines in
+file order and the exempt set exactly the one-column characters — the table every theorem above is about
+(`Table.pairs`, `Table.ignore`).  The reader is total: it returns a table or `InvalidDataFormat`. -/
+theorem read_rewrite_def_spec (text : List Nat) :
+    (∀ T, parseDef text = some T →
+      (∀ l ∈ splitLines text, classify l ≠ .bad) ∧ T.pairs = (splitLines text).filterMap pairOf ∧
+      T.ignore = ((splitLines text).filterMap exemptOf).reverse ∧ (T.pairs.map (·.1)).Nodup) ∧
+    ((∀ l ∈ splitLines text, classify l ≠ .bad) → (((splitLines text).filterMap pairOf).map (·.1)).Nodup →
+      ∃ T, parseDef text = some T) := by
+  constructor
+  · intro T h
+    obtain ⟨h1, h2, h3, h4⟩ := parseLines_sound (splitLines text) ⟨[], []⟩ T h
+    exact ⟨h1, by simpa using h2, by simpa using h3, h4 (by simp)⟩
+  · intro h1 h2
+    exact parseLines_complete (splitLines text) ⟨[], []⟩ h1 (by simpa using h2)
+
+/-- columns: every column `split_whitespace` yields is non-empty and free of Unicode white space (U+3000,
+TAB, CR, NBSP … included), and the columns concatenated are the line without its white space -/
+theorem columns_spec (line : List Nat) :
+    (∀ w ∈ wordsOf line, w ≠ [] ∧ ∀ c ∈ w, isWhite c = false) ∧
+    (wordsOf line).flatten = line.filter (fun c => !isWhite c) :=
+  ⟨wordsOf_ok line, wordsOf_flatten line⟩
 
 /-! ### the edit lists handed to `resolve_edits` (used by C01/C08) -/
 
@@ -287,6 +422,28 @@ example : yomiAt ⟨fun c => c == 0x6F22, fun c => c == 0x304B, [40], [41], 2⟩
 /-- the PSM and yomigana statements on concrete inputs -/
 example : applyEdits (psmEdits [0x30FC, 45] [0x30FC] [97, 0x30FC, 45, 45, 98, 45]) [97, 0x30FC, 45, 45, 98, 45] =
     some [97, 0x30FC, 98, 45] := by
-  simp [applyEdits, psmEdits, psmGo, applyGo]
+  simp [applyEdits, psmEdits, psmGo, applyGo, lenLt]
+
+/-- `CharOk` is satisfiable (facts of `Ｚ`) -/
+example : CharOk Uz := uz_ok.charOk
+
+/-- a new buffer, and a buffer after `start_build`, are `Coherent`; the limits of `recycled_rewrite_eq_spec` hold
+for a small text -/
+example : RBuf.new.Coherent ∧ bytes [97, 98, 99, 0xFF3A] ≤ 49149 :=
+  ⟨Or.inl rfl, by decide⟩
+
+example : newLen [97, 98] [⟨0, 1, [120, 121]⟩] ≤ 65535 := by decide
+
+/-- the hypotheses of `read_rewrite_def_spec` on a concrete file: `a x⏎ab y⏎` parses to the D9 table -/
+example : (parseDef [97, 32, 120, 10, 97, 98, 0x3000, 121, 10]).map (·.pairs) = some Tab.pairs := by decide
+
+/-- a duplicate key is rejected -/
+example : (parseDef [97, 32, 120, 10, 97, 32, 121]).isNone = true := by decide
+
+/-- the languages are inhabited: `ーー` is in `[ー-]{2,}`, `漢(か)` in the yomigana pattern -/
+example : (rePsm [0x30FC, 45]).lang [0x30FC, 0x30FC] := (psm_lang _ _).mpr ⟨by simp, by simp⟩
+
+example : (reYomi ⟨fun c => c == 0x6F22, fun c => c == 0x304B, [40], [41], 2⟩).lang [0x6F22, 40, 0x304B, 41] :=
+  (yomi_lang _ _).mpr ⟨0x6F22, 40, [0x304B], 41, rfl, by simp, by simp, by simp, by simp, by simp, by simp⟩
 
 end C07
